@@ -18,6 +18,13 @@ def dispatch(I, f, args, kw, st, node):
         return numpy_fn(I, n, args, kw, st, node)
     if k == "arrmethod":
         return arr_method(I, f.recv, n, args, kw, st, node)
+    if k == "tuplemethod":
+        if n == "sum":
+            r = 0
+            for it in f.recv.items:
+                r = arith("+", r, it)
+            return r
+        return f.recv
     if k == "idxmethod":
         if n == "flatten":
             return f.recv
@@ -116,7 +123,7 @@ def builtin(I, n, args, kw, st, node):
             return len(a.items)
         r = I.arr(st, a)
         if r is not None:
-            return r.length
+            return len(r.conc) if r.conc is not None else r.length
         from .interp import MaskedV
         if isinstance(a, MaskedV):
             return I.count_mask(a.mask, st, node)
@@ -168,6 +175,17 @@ def numpy_fn(I, n, args, kw, st, node):
             return arith("**", a, b)
         I.ctx.oblige("pow_base_nonneg", compare(">=", a, 0), st, node, "", SAFETY_TAG, note="nan from a negative base")
         return V.v_pow(a, b)
+    if n in ("zeros", "ones") and I.ctx.concrete:
+        ln = args[0]
+        if isinstance(ln, TupleV):
+            raise ToolLimit("np.%s of a shape tuple" % n)
+        return I.alloc_array(st, None, None, "Real", n, conc=[0.0 if n == "zeros" else 1.0] * int(ln))
+    if n in ("unique", "sort") and I.ctx.concrete:
+        a0 = args[0]
+        r0 = I.arr(st, a0)
+        vals = list(r0.conc) if r0 is not None else list(a0.items)
+        vals = sorted(set(vals)) if n == "unique" else sorted(vals)
+        return TupleV([int(v) if float(v) == int(v) and (r0 is None or r0.elem == "Int") else v for v in vals])
     if n in ("zeros", "ones"):
         ln = args[0]
         if isinstance(ln, TupleV):
@@ -182,6 +200,9 @@ def numpy_fn(I, n, args, kw, st, node):
         ra, rb = I.arr(st, a), I.arr(st, b)
         if ra is None and rb is None:
             return V.v_max(a, b) if n == "maximum" else V.v_min(a, b)
+        if ra is not None and rb is not None and ra.conc is not None and rb.conc is not None:
+            f_ = max if n == "maximum" else min
+            return I.alloc_array(st, None, None, "Real", n, conc=[f_(x, y) for x, y in zip(ra.conc, rb.conc)])
         if ra is not None and rb is not None and isinstance(ra.length, int) and ra.length == rb.length:
             t = z3.K(z3.IntSort(), z3.RealVal(0))
             for i in range(ra.length):
@@ -203,6 +224,12 @@ def numpy_fn(I, n, args, kw, st, node):
         a = args[0]
         if isinstance(a, TupleV):
             return a
+        r0 = I.arr(st, a)
+        if r0 is not None:
+            # np.array(x) copies
+            if r0.conc is not None:
+                return I.alloc_array(st, None, None, r0.elem, "copy", conc=list(r0.conc))
+            return I.alloc_array(st, r0.term, r0.length, r0.elem, "copy")
         return a
     if n in ("float64", "float32"):
         return builtin(I, "float", args, kw, st, node)
@@ -249,6 +276,12 @@ def numpy_fn(I, n, args, kw, st, node):
 
 def arr_method(I, ref, n, args, kw, st, node):
     rec = st.heap[ref.oid]
+    if rec.conc is not None:
+        if n in ("copy", "flatten"):
+            return I.alloc_array(st, None, None, rec.elem, "copy", conc=list(rec.conc))
+        if n == "sum":
+            return sum(rec.conc)
+        raise ToolLimit("concrete array method .%s" % n)
     if n == "get_loc":
         # pandas DatetimeIndex.get_loc(d) on the simulation calendar (assumed contract on pandas: the position k with index[k] == d;
         # KeyError when absent).  The calendar is a gap-free daily sequence (clock axiom), so k = d - index[0].
@@ -298,6 +331,14 @@ def construct_record(I, rel, fname, args, kw, st, node):
 def repo_call(I, name, args, kw, st, node):
     rel, fname = I.ctx.imports[name]
     reg = I.ctx.registry
+    if I.ctx.concrete:
+        try:
+            find_function(rel, fname)
+        except ToolLimit:
+            r = construct_record(I, rel, fname, args, kw, st, node)
+            if r is not None:
+                return r
+        return inline_call(I, rel, fname, args, kw, st, node)
     if reg.lookup(rel, fname) is None:
         try:
             find_function(rel, fname)
@@ -440,6 +481,8 @@ def modular_call(I, c, args, kw, st, node):
                 st.heap[v.oid] = post.heap[v.oid]
             elif rt in ("Real", "Int", "Bool"):
                 v = I.ctx.fresh("%s.%s" % (c.name, rn), rt)
+            elif rt == "Opaque":
+                v = Opaque("%s.%s!%d" % (c.name, rn, next(I.ctx.counter)))
             else:
                 raise ToolLimit("result type %r of %s" % (rt, c.name))
             post.locals[rn] = v
@@ -497,6 +540,26 @@ def havoc_target(I, target, bound, st, c):
         raise ToolLimit("assigns target %s" % target)
     last = parts[-1]
     owner = st.heap[v.oid]
+    if last == "**":
+        # everything reachable through this object may change: the object gets a new version name, so every field read after the
+        # call is a fresh symbol (arrays and sub-objects included); output tables receive one unknown row write each
+        from .spec import FIELD_TYPES
+        k = next(I.ctx.counter)
+        newrec = ObjRec(owner.cls, {}, name="%s~%d" % (owner.name.split("~")[0], k), lazy=True, writable=owner.writable, fresh=owner.fresh)
+        cols = c.options.get("table_cols", {})
+        for fname, fty in FIELD_TYPES.get(owner.cls, {}).items():
+            if isinstance(fty, tuple) and fty and fty[0] == "Table":
+                oid = I.ctx.new_oid()
+                n = cols.get(fname)
+                if n:
+                    row = I.ctx.fresh("%s.%s.row" % (c.name, fname), "Int")
+                    vals = TupleV([I.ctx.fresh("%s.%s.c%d" % (c.name, fname, j), "Real") for j in range(n)], "list")
+                    st.heap[oid] = TableRec("%s.%s" % (newrec.name, fname), [(row, ":", vals)])
+                else:
+                    st.heap[oid] = TableRec("%s.%s" % (newrec.name, fname), [])
+                newrec.fields[fname] = Ref(oid)
+        st.heap[v.oid] = newrec
+        return
     if last == "*":
         from .spec import FIELD_TYPES
         raise ToolLimit("assigns P.* needs an explicit field list")
